@@ -63,7 +63,11 @@ OBJECTS = [
     (C("lih_cation_rohf.wfx"), WFN), (C("he2_ghost_psi4_1.0.molden"), WFN + GEOM), (C("water_dimer_ghost.fchk"), WFN + GEOM),
     (C("li_h_3-21G_hf_g09.fchk"), WFN), (C("peroxide_opt.fchk"), ["fchk", "xyz"]),
 ]
-MODS = [None, None, {"op": "extra_nested"}, {"op": "mo_aminusb"}, {"op": "gen_contraction"}, {"op": "title", "value": None}]
+MODS = [None, None, {"op": "extra_nested"}, {"op": "mo_aminusb"}, {"op": "gen_contraction"}, {"op": "title", "value": None},
+        # the caller changed a scalar attribute after loading (the dump must not write it back into nested extra dicts)
+        {"op": "set", "attr": "energy", "value": -1.2345}, {"op": "set", "attr": "run_type", "value": "opt"},
+        {"op": "set", "attr": "title", "value": "changed by the caller"}, {"op": "set", "attr": "lot", "value": "mp2"},
+        {"op": "set", "attr": "obasis_name", "value": "cc-pvdz"}, {"op": "set", "attr": "g_rot", "value": 2.0}]
 
 _GUARD = None
 
@@ -267,7 +271,7 @@ def gen_trace(rng):
     recipe, fmts = rng.choice(OBJECTS)
     recipe = copy.deepcopy(recipe)
     mod = rng.choice(MODS)
-    if mod is not None and (mod["op"] in ("extra_nested", "title") or recipe["file"].endswith((".fchk", ".molden.input", ".mkl", ".wfn", ".wfx", ".molden"))):
+    if mod is not None and (mod["op"] in ("extra_nested", "title", "set") or recipe["file"].endswith((".fchk", ".molden.input", ".mkl", ".wfn", ".wfx", ".molden"))):
         recipe["mods"] = [mod]
     def call():
         fmt = rng.choice(fmts) if rng.random() < 0.85 else rng.choice(sorted(OUTNAME))
